@@ -78,3 +78,27 @@ def _is_ws_pred(prog, f):
         if ret[0] == "call" and ret[1] == "char::is_whitespace" and ret[2][0][0] == "param":
             return not neg
     return None
+
+
+def optchar_eq(fact):
+    """OPTCHAR-EQ: the fact compares an Option<char> o with Some(c) for a constant char c.
+    Returns (o, code point, polarity of `o == Some(c)`), or None.  Forms: o == Some(c)
+    (PartialEq::eq), a comparison / switch on the payload o?Some.0 against c (which is only
+    evaluated when o is Some)."""
+    atom, pol = fact
+    if atom[0] == "b" and atom[1][0] == "call" and atom[1][1] in ("PartialEq::eq", "PartialEq::ne") and len(atom[1][2]) == 2:
+        for o, other in (atom[1][2], atom[1][2][::-1]):
+            if other[0] == "adt" and other[2] == "Some" and other[3] and other[3][0][1][0] == "char":
+                return (o, other[3][0][1][1], pol if atom[1][1] == "PartialEq::eq" else not pol)
+    if atom[0] == "cmp" and atom[1] == "Eq":
+        for x, c in ((atom[2], atom[3]), (atom[3], atom[2])):
+            if c[0] == "char" and x[0] == "field" and x[2] == "0" and x[1][0] == "as" and x[1][2] == "Some":
+                return (x[1][1], c[1], pol)
+    if atom[0] == "inteq":
+        x = atom[1]
+        if x[0] == "field" and x[2] == "0" and x[1][0] == "as" and x[1][2] == "Some":
+            try:
+                return (x[1][1], int(atom[2]), pol)
+            except ValueError:
+                return None
+    return None
